@@ -319,6 +319,95 @@ func init() {
 	sb("String", func(f *FuncCtx, st *State, call *ast.CallExpr, cur Term, set func(Term)) []Term {
 		return []Term{{S: cur.S, Sort: SStr, GoT: f.typeOf(call)}}
 	})
+	// ---- sync.Mutex (A-SEQ: single goroutine; lock operations have no effect on verified state) ----
+	for _, m := range []string{"Lock", "Unlock"} {
+		intrinsics["(*sync.Mutex)."+m] = &intrinsic{lvalueRecv: true, fn: func(f *FuncCtx, st *State, call *ast.CallExpr, recvE ast.Expr, _ *Term) []Term {
+			use(f, "sync.Mutex Lock/Unlock: no effect on verified state (A-SEQ, no thread model)")
+			return nil
+		}}
+	}
+	// ---- sort.SliceStable / sort.Slice (T-SORT) ----
+	for _, name := range []string{"sort.SliceStable", "sort.Slice"} {
+		name := name
+		reg(name, "", func(f *FuncCtx, st *State, call *ast.CallExpr, _ ast.Expr, _ *Term) []Term {
+			use(f, name+"(s, less): afterwards s is a permutation of its old value with no inversion w.r.t. less, PROVIDED less is a strict weak order (obligation generated on the closure); less is a single-return closure")
+			fl, ok := ast.Unparen(call.Args[1]).(*ast.FuncLit)
+			if !ok || len(fl.Body.List) != 1 {
+				unsup("sort with a non-literal or multi-statement less at %s", f.pos(call))
+			}
+			ret, ok := fl.Body.List[0].(*ast.ReturnStmt)
+			if !ok || len(ret.Results) != 1 {
+				unsup("sort: less must be a single return at %s", f.pos(call))
+			}
+			var pvars []*types.Var
+			for _, fld := range fl.Type.Params.List {
+				for _, n := range fld.Names {
+					pvars = append(pvars, f.tinfo().Defs[n].(*types.Var))
+				}
+			}
+			if len(pvars) != 2 {
+				unsup("sort: less must take two indices")
+			}
+			old := f.expr(st, call.Args[0])
+			ss := old.Sort
+			n := "(len_" + ss + " " + old.S + ")"
+			// L(a, b) on a given slice value
+			nDefs := 0
+			less := func(base *State, sl Term, a, b string) string {
+				s2 := base.clone()
+				f.assignTo(s2, call.Args[0], sl)
+				s2.vars[pvars[0]] = Term{S: a, Sort: SInt, GoT: pvars[0].Type()}
+				s2.vars[pvars[1]] = Term{S: b, Sort: SInt, GoT: pvars[1].Type()}
+				savedPend, savedTrack := f.pend, f.track
+				f.track = false
+				t := f.expr(s2, ret.Results[0])
+				f.pend, f.track = savedPend, savedTrack
+				// definitions introduced while evaluating live in s2.pc beyond base.pc: inline them as a conjunction context
+				extra := s2.pc[len(base.pc):]
+				if len(extra) > 0 {
+					// keep only equalities that define fresh symbols; they are needed to interpret t
+					for _, e := range extra {
+						if strings.HasPrefix(e, "(= v_") {
+							base.assume(e)
+							nDefs++
+						}
+					}
+				}
+				return t.S
+			}
+			// obligations: strict weak order on arbitrary valid indices of the current slice
+			a, b, c := f.fresh("swo_a", SInt), f.fresh("swo_b", SInt), f.fresh("swo_c", SInt)
+			chk := st.clone()
+			for _, v := range []string{a, b, c} {
+				chk.assume("(and (<= 0 " + v + ") (< " + v + " " + n + "))")
+			}
+			laa := less(chk, old, a, a)
+			lab, lba := less(chk, old, a, b), less(chk, old, b, a)
+			lbc, lcb := less(chk, old, b, c), less(chk, old, c, b)
+			lac, lca := less(chk, old, a, c), less(chk, old, c, a)
+			site := f.site("call:" + strings.TrimPrefix(name, "sort."))
+			f.oblige(chk, "(not "+laa+")", "less-irreflexive@"+site, "pre", "T-SORT premise: less is irreflexive", nil, f.pos(call))
+			f.oblige(chk, "(=> (and "+lab+" "+lbc+") "+lac+")", "less-transitive@"+site, "pre", "T-SORT premise: less is transitive", nil, f.pos(call))
+			f.oblige(chk, "(=> (and (not "+lab+") (not "+lba+") (not "+lbc+") (not "+lcb+")) (and (not "+lac+") (not "+lca+")))", "less-incomparability-transitive@"+site, "pre", "T-SORT premise: incomparability is transitive (strict weak order)", nil, f.pos(call))
+			// result: permutation without inversions
+			res := Term{S: f.fresh("sorted", ss), Sort: ss, GoT: old.GoT}
+			perm := f.fresh("perm", "(Array Int Int)")
+			inv := f.fresh("perminv", "(Array Int Int)")
+			st.assume("(= (len_" + ss + " " + res.S + ") " + n + ")")
+			st.assume("(forall ((q!i Int)) (! (=> (and (<= 0 q!i) (< q!i " + n + ")) (and (<= 0 (select " + perm + " q!i)) (< (select " + perm + " q!i) " + n + ") (= (select " + inv + " (select " + perm + " q!i)) q!i) (= (select (arr_" + ss + " " + res.S + ") q!i) (select (arr_" + ss + " " + old.S + ") (select " + perm + " q!i))))) :pattern ((select (arr_" + ss + " " + res.S + ") q!i)) :pattern ((select " + perm + " q!i))))")
+			st.assume("(forall ((q!i Int)) (! (=> (and (<= 0 q!i) (< q!i " + n + ")) (and (<= 0 (select " + inv + " q!i)) (< (select " + inv + " q!i) " + n + ") (= (select " + perm + " (select " + inv + " q!i)) q!i))) :pattern ((select " + inv + " q!i)) :pattern ((select (arr_" + ss + " " + old.S + ") q!i))))")
+			f.assignTo(st, call.Args[0], res)
+			qi, qj := "q!si", "q!sj"
+			tmp := st.clone()
+			nDefs = 0
+			lji := less(tmp, res, qj, qi)
+			if nDefs != 0 {
+				unsup("sort: less is too complex to quantify over at %s", f.pos(call))
+			}
+			st.assume("(forall ((" + qi + " Int) (" + qj + " Int)) (! (=> (and (<= 0 " + qi + ") (< " + qi + " " + qj + ") (< " + qj + " " + n + ")) (not " + lji + ")) :pattern ((select (arr_" + ss + " " + res.S + ") " + qi + ") (select (arr_" + ss + " " + res.S + ") " + qj + "))))")
+			return nil
+		})
+	}
 	// ---- time ----
 	tm := func(name, fn string) {
 		reg("(time.Time)."+name, "", func(f *FuncCtx, st *State, call *ast.CallExpr, _ ast.Expr, r *Term) []Term {
